@@ -1,6 +1,7 @@
 import Dbus.Proofs.Bus.Limits
 import Dbus.Proofs.Bus.Timed
 import Dbus.Proofs.Bus.GenericA
+import Dbus.Proofs.Bus.MonInv
 /-
   C09 — only the addressee of a pending call can answer it, once.
 -/
@@ -419,5 +420,24 @@ theorem young_call_survives_reachable (tbl : List IfaceRow) (evs : List TEv) (t0
 example : let t : TBus := { a := { core := { pending := [slot 1 2 7] } }, replyTimeout := some 800000, slotBorn := [(slot 1 2 7, 0)] }
     ((stepT [] t (.advance 700000)).1.a.core.pending = [slot 1 2 7]) ∧ ((stepT [] t (.advance 900000)).1.a.core.pending = []) := by
   decide
+
+/-! ### who a slot is between, in every reachable state -/
+
+/-- **No slot outlives its caller or its callee**: in every reachable state of the bus each pending reply is between two
+    connected clients, neither of them a monitor. (So every slot ends in one of the three ways proved above: the callee's
+    reply consumes it, it expires, or one of the two disconnects - `callee_gone_one_noreply_each`.) -/
+theorem slots_between_connected_clients (tbl : List IfaceRow) (l : Limits) (p : Policy) (evs : List Ev) :
+    ∀ e ∈ (run tbl { limits := l, policy := p } evs).1.pending,
+      (e.caller ∈ (run tbl { limits := l, policy := p } evs).1.conns.map (·.id) ∧
+       e.callee ∈ (run tbl { limits := l, policy := p } evs).1.conns.map (·.id)) ∧
+      ∀ x ∈ (run tbl { limits := l, policy := p } evs).1.conns, x.monitor = true → e.caller ≠ x.id ∧ e.callee ≠ x.id := by
+  intro e he
+  have hg := good_run tbl (good_init l p) evs
+  refine ⟨hg.plive e he, ?_⟩
+  intro x hx hm
+  have := hg.quiet x hx hm e he
+  unfold involves at this
+  simp only [Bool.or_eq_false_iff, beq_eq_false_iff_ne, ne_eq] at this
+  exact this
 
 end Dbus.Props.C09
